@@ -6,7 +6,7 @@ import time
 from vf import par
 
 
-def run_e1(rep, mod, tier, budget_s=None, sig_prefix=""):
+def run_e1(rep, mod, tier, budget_s=None, side=None):
     tasks = mod.tasks(tier)
     seed = rep.seed
     if seed:
@@ -23,7 +23,7 @@ def run_e1(rep, mod, tier, budget_s=None, sig_prefix=""):
         if c.pop("capped", False):
             capped = True
         rep.merge_counts(c)
-        for v in res["violations"]:
+        for v in (res["side"].get(side, []) if side else res["violations"]):
             rep.violation(v["signature"], v["what"], v["replay"])
         errors.extend(res.get("errors", []))
         if "sample" in res and (done % max(1, len(tasks) // 6) == 0 or done <= 2):
